@@ -152,6 +152,15 @@ def all_args(a):
     return list(a.posonlyargs) + list(a.args) + list(a.kwonlyargs)
 
 
+def defaulted(a):
+    """names of the parameters that carry a default value (not fixture requests, fix 26e7ea3)"""
+    pos = list(a.posonlyargs) + list(a.args)
+    nd = len(a.defaults)
+    out = set(x.arg for x in pos[len(pos) - nd:]) if nd else set()
+    out |= set(x.arg for x, d in zip(a.kwonlyargs, a.kw_defaults) if d is not None)
+    return out
+
+
 def names_from_expr(e, out):
     if isinstance(e, ast.Name):
         out.add(e.id)
@@ -196,7 +205,7 @@ def expr_to_string(e):
         if isinstance(v, bool):
             return "Bool(true)" if v else "Bool(false)"
         if isinstance(v, str):
-            return "Str(" + rust_debug_str(v) + ")"
+            return v          # since fix 07425d9 (forward reference names a type)
         if v is Ellipsis:
             return "Ellipsis"
         if isinstance(v, int):
@@ -218,17 +227,18 @@ def contains_yield(body):
         if isinstance(st, ast.If):
             if contains_yield(st.body) or contains_yield(st.orelse):
                 return True
-        elif isinstance(st, ast.For):
+        elif isinstance(st, (ast.For, ast.AsyncFor)):
             if contains_yield(st.body) or contains_yield(st.orelse):
                 return True
         elif isinstance(st, ast.While):
             if contains_yield(st.body) or contains_yield(st.orelse):
                 return True
-        elif isinstance(st, ast.With):
+        elif isinstance(st, (ast.With, ast.AsyncWith)):
             if contains_yield(st.body):
                 return True
         elif isinstance(st, ast.Try):
-            if contains_yield(st.body) or contains_yield(st.orelse) or contains_yield(st.finalbody):
+            if contains_yield(st.body) or any(contains_yield(h.body) for h in st.handlers) \
+                    or contains_yield(st.orelse) or contains_yield(st.finalbody):
                 return True
     return False
 
@@ -527,24 +537,26 @@ def extract(text: str, stdlib):
             (sc, ec) = find_function_name_position(lines_b, st.lineno, fn.encode("utf-8"))
             declared = {"self", "request", fn}
             deps = []
+            dflt = defaulted(st.args)
             for a in args:
                 declared.add(a.arg)
-                if a.arg not in ("self", "request"):
+                if a.arg not in ("self", "request") and a.arg not in dflt:
                     deps.append(a.arg)
             items.append({"k": "def", "name": name, "line": st.lineno, "end_line": st.end_lineno,
                           "start": sc, "end": ec, "doc": doc, "ret": ret, "deps": deps,
                           "scope": scope, "yield": find_yield_line(st.body),
                           "autouse": fixture_autouse(dec)})
             for a in args:
-                if a.arg not in ("self", "request"):
+                if a.arg not in ("self", "request") and a.arg not in dflt:
                     items.append({"k": "use", "name": a.arg, "line": a.lineno, "start": a.col_offset,
                                   "end": a.col_offset + len(a.arg.encode("utf-8"))})
             items.append(body_item(st.body, declared, fn, st.lineno))
         if fn.startswith("test_") and dec is None:
             declared = {"self", "request"}
+            dflt = defaulted(st.args)
             for a in args:
                 declared.add(a.arg)
-                if a.arg != "self":
+                if a.arg != "self" and a.arg not in dflt:
                     items.append({"k": "use", "name": a.arg, "line": a.lineno, "start": a.col_offset,
                                   "end": a.col_offset + len(a.arg.encode("utf-8"))})
             items.append(body_item(st.body, declared, fn, st.lineno))
